@@ -339,6 +339,7 @@ func (b *Buffer) getAsync(ctx context.Context, c *consumer, offset int, cancels 
 	// spawn a sender for it
 	go func() {
 		// we need to wait for the value in the buffer, so we need to write lock the buffer
+		verifPoint(verifGetAsyncStart)
 		b.mutex.Lock()
 		defer b.mutex.Unlock()
 
@@ -533,6 +534,7 @@ func (b *Buffer) cleanup() {
 
 				// wait for the timer to expire
 				<-timer.C
+				verifPoint(verifCleanupTimerFired)
 			}()
 		}
 	)
@@ -548,6 +550,7 @@ func (b *Buffer) cleanup() {
 		func() bool {
 			// call the cleanup function (note we are write locked here)
 			cleanup(b.cleaner.Cooldown)
+			verifPoint(verifCleanupAfterPass)
 			return false
 		},
 	); err != nil && b.ctx.Err() == nil {
